@@ -230,6 +230,26 @@ func seSpecLog(b *seBeh) []string {
 	return out
 }
 
+// seFirstH keeps what the property speaks about: the first assignment of the header, and one successful flush
+// per run of successful flushes (a Flush with nothing new to push may or may not reach the writer).
+func seFirstH(log []string) []string {
+	out := make([]string, 0, len(log))
+	seen := false
+	for _, e := range log {
+		if e == "F+" && len(out) > 0 && out[len(out)-1] == "F+" {
+			continue
+		}
+		if e == "H" {
+			if seen {
+				continue
+			}
+			seen = true
+		}
+		out = append(out, e)
+	}
+	return out
+}
+
 func cmdSession(args []string) {
 	fs := flag.NewFlagSet("session", flag.ExitOnError)
 	in := fs.String("in", "", "ndjson behaviours exported by Session.tla")
@@ -300,7 +320,10 @@ func cmdSession(args []string) {
 			for _, p := range probs {
 				res.violate(p+"  ["+desc+"]", "session:body", det)
 			}
-			want := seSpecLog(&b)
+			// only the first "H" matters to the property (the header is in place before anything reaches the
+			// client); whether a retried upgrade assigns it again is the implementation's business
+			want := seFirstH(seSpecLog(&b))
+			got = seFirstH(got)
 			if len(probs) == 0 && strings.Join(got, " ") != strings.Join(want, " ") {
 				res.violate(fmt.Sprintf("underlying writer saw %v, spec %v  [%s]", got, want, desc), "session:log", det)
 			}
@@ -444,11 +467,15 @@ func cmdServe(args []string) {
 					if cs.E.Subscribed {
 						// the provider sent one message through the session: header, flush, its bytes, flush - nothing else
 						got, probs := seAbstract(c.log, []string{"m1"})
+						got = seFirstH(got)
 						if len(probs) > 0 || strings.Join(got, " ") != "H F+ W:m1:full F+" || c.status != 0 || p.sendErr != nil {
 							bad("a session that streamed one message shows %v (problems %v, status %d, send error %v), spec: [H F+ W:m1:full F+]", got, probs, c.status, p.sendErr)
 						}
 					} else if len(c.log) != 0 || c.status != 0 {
 						bad("the server wrote %q although it must write nothing of its own", wrote)
+					} else if len(c.hdr) != 0 {
+						// the rejecting OnSession of this driver sets no header: whatever is there is the library's
+						bad("the server left response headers %v on a request it must not answer itself", c.hdr)
 					}
 				default:
 					if c.status != 500 {
